@@ -282,6 +282,8 @@ func kindShape(t reflect.Type, depth int) string {
 }
 
 func runC16(c *Ctx) {
+	runC16ManyNulls(c)
+	runC16AfterFailure(c)
 	n := c.N(3000, 250000)
 	c.Parallel(n, func(w, i int) {
 		k := MarshalCase{CaseSeed: c.Seed*16_000_057 + int64(i), Depth: 1 + i%3}
@@ -452,6 +454,22 @@ func init() {
 		var k MarshalCase
 		if err := json.Unmarshal(v.Case, &k); err != nil {
 			return "cannot decode case: " + err.Error()
+		}
+		if k.CaseSeed < 0 {
+			// a directed value (many flat nulls): the value is built by the check itself
+			for i, x := range manyNullValues() {
+				if int64(-1-i) == k.CaseSeed {
+					for enc, name := range encNames {
+						if name == k.Enc {
+							if r := runMarshalEnc(reflect.TypeOf(x), reflect.ValueOf(x), enc, &k); r != "" {
+								return "VIOLATED on replay: " + r
+							}
+							return "HELD on replay"
+						}
+					}
+				}
+			}
+			return "directed case: run the check again to reproduce it"
 		}
 		t, val := buildMarshalCase(&k)
 		for enc, name := range encNames {
